@@ -121,6 +121,7 @@ theorem good_inv {sl w fs extra} (I : Inv sl w fs) : Good w.nf extra fs := by
   · refine good_a I.frame (fun hh => ?_) I.ids h
     exact ((inv_parsable I).1 hh.2) h
   · exact good_b I.frame I.cur_in ((inv_parsable I).2 h) I.cur_ok I.ids (Or.inl rfl)
+      ⟨w.fls, by rw [I.cur_sfm, if_neg h], fun _ hf => hf⟩
 
 /-- every proper cut of a buffer flush -/
 theorem flush_prefix {sl w fs} (I : Inv sl w fs) (ws : List Nat) (k : Nat) (hk : k < (flushSteps w ws).length) :
@@ -147,7 +148,7 @@ theorem flush_prefix {sl w fs} (I : Inv sl w fs) (ws : List Nat) (k : Nat) (hk :
     · refine good_a F (fun hh => ?_) I.ids h
       rw [hsfm] at hh
       exact ((inv_parsable I).1 hh.2) h
-    · refine good_b F hin ?_ hok I.ids (Or.inl rfl)
+    · refine good_b F hin ?_ hok I.ids (Or.inl rfl) ⟨w.fls, by rw [hsfm, I.cur_sfm, if_neg h], fun _ hf => hf⟩
       rw [hsfm]; exact (inv_parsable I).2 h
   · -- all chunks written, j ∈ {1,2,3,4} of the five meta steps done: the block summary is there, the running
     -- .sfm still is the previous one (the new one exists at most as .sfm.tmp)
@@ -175,7 +176,7 @@ theorem flush_prefix {sl w fs} (I : Inv sl w fs) (ws : List Nat) (k : Nat) (hk :
     · refine good_a F (fun hh => ?_) I.ids h
       rw [hst.2] at hh
       exact ((inv_parsable I).1 hh.2) h
-    · refine good_b F hin ?_ hst.1 I.ids (Or.inr ⟨rfl, rfl⟩)
+    · refine good_b F hin ?_ hst.1 I.ids (Or.inr ⟨rfl, rfl⟩) ⟨w.fls, by rw [hst.2, I.cur_sfm, if_neg h], fun _ hf => hf⟩
       rw [hst.2]; exact (inv_parsable I).2 h
 
 end SigModel.Lemmas.C07
